@@ -796,6 +796,11 @@ class Interp:
                 pass
             elif isinstance(base, Vec):
                 self._vec_store(base, key, v, st)
+            elif isinstance(base, IdxArr) and len([k for k in key if k is not Ellipsis]) == 1 and isinstance(to_py([k for k in key if k is not Ellipsis][0]), int):
+                # element store into an index-parametrised array: the entry at that index is overridden
+                k0 = to_py([k for k in key if k is not Ellipsis][0])
+                idx = base.n + k0 if k0 < 0 else sp.Integer(k0)
+                base.expr = sp.Piecewise((self.as_expr(v, st), sp.Eq(IdxArr.K, idx)), (base.expr, True))
             else:
                 self.fail(st, f"store into {base!r}")
         elif isinstance(t, ast.Attribute):
